@@ -24,7 +24,7 @@ class FragCheck:
         self.pair_mode = pair_mode
         self.want_execs = want_execs
         self.extra_cases = extra_cases  # callable(rng) -> list of (prog, version, features) run in batch 0
-        self.case_timeout = 30
+        self.case_timeout = 45
 
     def plan(self, tier, seed, scale=1.0):
         nb, per = self.sizes[tier]
